@@ -36,8 +36,7 @@ LEVEL_TEXT = ('Theorems for every grid/level/request rectangle (mosaic georefere
               'Gallina model Geo.v; the model is tied to the code by running the real functions and the real WSGI '
               'application on generated configurations and comparing with the model evaluated by vm_compute.')
 LEVEL_NOTE = ('Known findings reproduced by the oracle on the unchanged tree (known_findings.d/C01.json): RESTful WMTS GetFeatureInfo uses '
-              'the mirrored tile on south-origin grids; meta tiles with equal buffered bbox are dropped; sub-pixel truncations of '
-              'several stages add up to 1.5-3.5 px.  '
+              'the mirrored tile on south-origin grids; sub-pixel truncations of several stages add up to 1.5-3.5 px.  '
               'Trusted: Coq kernel; hand-written model Geo.v/Grid.v; the correspondence harness and the synthetic upstream. '
               'IEEE-754 rounding is not modelled (exact stream: dyadic inputs, results compared exactly or within 2^-40 '
               'relative where a division is inexact). PROJ, PIL resampling kernels and the MESH path are not modelled: they '
@@ -770,6 +769,9 @@ def correspond(ctx, T, grid_defs):
                    "| Mosaic l ab nx ny ts => same_request_set (meta_requests (mkMeta g mx my buf) ts) obs "
                    "| _ => match obs with [] => true | _ => false end end",
                    lambda i: T.get('e2e_wms')[1][i], defs=defs, shard=60)
+    ctx.corr_check('wmts_featureinfo_bbox', I, 'grid * wmts_request * (Z * Z * Z) * bbox', T.get('wmts')[0],
+                   "fun c => let '(g, r, (col, row, l), obs) := c in obbox_eqb (wmts_bbox g r col row l) (Some obs)",
+                   lambda i: T.get('wmts')[1][i], defs=defs, shard=150)
     ctx.corr_check('e2e_upstream_tile_requests', I, '(grid * bbox * Z * Z) * list (Z * Z * Z)', T.get('e2e_tiles')[0],
                    "fun c => let '((g, b, sx, sy), obs) := c in "
                    "match cache_map_plan g b sx sy with "
@@ -970,6 +972,10 @@ def pixel_oracle(ctx, up, body, bbox, size, up_res, extent, to_up, rep, sig, tol
     distx = np.maximum(0, np.maximum(kx * cell - X, X - (kx + 1) * cell))
     disty = np.maximum(0, np.maximum(ky * cell - Y, Y - (ky + 1) * cell))
     slack = up_res / 2.0
+    # the unit of the tolerance is the coarser of the output pixel and the upstream / stored pixel: when the output is
+    # finer than the stored level (upsampling) the truncations of the pipeline are fractions of a *stored* pixel
+    tx = np.maximum(tx, tol_px * up_res)
+    ty = np.maximum(ty, tol_px * up_res)
     bad = content & ((distx > tx + slack + 1e-9 * (1 + np.abs(X))) | (disty > ty + slack + 1e-9 * (1 + np.abs(Y))))
     worst = 0.0
     if content.any():
@@ -982,8 +988,8 @@ def pixel_oracle(ctx, up, body, bbox, size, up_res, extent, to_up, rep, sig, tol
             ctx.count('e2e:accumulated_subpixel_error(known finding)')
         else:
             fsig = sig + ':misplaced'
-        ctx.fail(fsig, 'output pixel (%d, %d) at ground position (%r, %r) shows upstream cell at distance (%.3f, %.3f) output px '
-                 '(allowed %.1f + half an upstream pixel); %d of %d pixels misplaced' % (
+        ctx.fail(fsig, 'output pixel (%d, %d) at ground position (%r, %r) shows upstream cell at distance (%.3f, %.3f) pixels '
+                 '(allowed %.1f + half an upstream pixel; unit: the coarser of output and upstream pixel); %d of %d pixels misplaced' % (
                      i, j, float(X[j, i]), float(Y[j, i]), float((distx[j, i] - slack) / tx[j, i] * tol_px), float((disty[j, i] - slack) / ty[j, i] * tol_px),
                      tol_px, int(bad.sum()), w * h), dict(rep, truncation_stages=stages, worst_error_px=worst))
     if extent is not None:
@@ -1203,8 +1209,14 @@ def e2e_same_srs(ctx, T, grids_defs):
                     if resp2.status_int == 200 and resp2.body != resp.body:
                         c1, c2 = decode(resp.body), decode(resp2.body)
                         if not ((c1[0] == c2[0]).all() and (c1[1] == c2[1])[c1[0]].all() and (c1[2] == c2[2])[c1[0]].all()):
-                            ctx.fail('e2e:cached-differs', 'the same request answered from the cache shows a different picture', rep)
-                    if len(up.requests) != n0 and kind != 'coverage':
+                            if rep.get('duplicate_meta_bbox'):
+                                ctx.fail(DUP_META, 'the same request answered a second time shows more content: a meta tile was dropped the first time', rep)
+                            else:
+                                ctx.fail('e2e:cached-differs', 'the same request answered from the cache shows a different picture', rep)
+                    if len(up.requests) != n0 and kind != 'coverage' and rep.get('duplicate_meta_bbox'):
+                        # the meta tile that was dropped the first time is fetched now (same known finding)
+                        ctx.fail(DUP_META, 'second identical request goes upstream again: a meta tile was dropped the first time', rep)
+                    elif len(up.requests) != n0 and kind != 'coverage':
                         ctx.fail('e2e:refetch', 'second identical request went upstream again (%d requests)' % (len(up.requests) - n0), rep)
                 # a request that is exactly one stored tile returns the stored tile bytes unresampled
                 if rkind == 'tile' and kind in ('wms', 'tiles') and resp.status_int == 200:
@@ -1247,7 +1259,7 @@ def single_tile_oracle(ctx, app, d, gc, bbox, size, url, resp, rep):
     ctx.count('e2e:single_tile_checked')
 
 
-def e2e_featureinfo(ctx):
+def e2e_featureinfo(ctx, T, grid_defs):
     """GetFeatureInfo through WMS (1.1.1 x/y, 1.3.0 i/j and axis order) and WMTS (KVP and RESTful) reaches the upstream
     for the ground point that was clicked; for WMTS the forwarded bbox is the rectangle of the tile that GetTile serves."""
     import mapproxy.client.http as http
@@ -1262,6 +1274,7 @@ def e2e_featureinfo(ctx):
             if ci % 2 == 0:
                 force['origin'] = rng.choice(['ll', 'sw'])
             gc = make_grid(rng, 'f%d' % ci, force)
+            grid_defs.append(gc.definition())
             # WMTS needs a grid whose tiled area ends at the top of the grid bbox on every level
             wmts_ok = gc.grid.supports_access_with_origin('nw')
             conf, info = e2e_conf(rng, gc, 'wms')
@@ -1344,6 +1357,9 @@ def e2e_featureinfo(ctx):
                     continue
                 r = fis[0]
                 rep['upstream'] = r['url']
+                if gc.can_scale(*r['bbox']):
+                    T.add('wmts', '(%s, %s, %s, %s)' % (gc.name, 'KvpFeatureInfo' if style == 'kvp' else 'RestFeatureInfo', coord_lit((col, row, l)), gc.zbbox(r['bbox'])),
+                          {'grid': gc.conf, 'request': url, 'forwarded_bbox': r['bbox']})
                 if any(abs(a - b) > r_ / 10 for a, b in zip(r['bbox'], rect)) or tuple(r['size']) != (gc.tw, gc.th) or tuple(r['pos']) != (i, j):
                     sig = 'fi:wmts-%s-wrong-tile' % style
                     ctx.fail(sig, 'WMTS GetFeatureInfo (%s) for tile col %d row %d of matrix %d (rectangle %r) is forwarded with bbox %r pos %r'
@@ -1518,7 +1534,7 @@ def run(ctx):
         import traceback
         ctx.problem('harness', 'corpus replay could not run: %r' % (e,), traceback.format_exc())
     grid_defs = run_pure(ctx, T)
-    for name, f in [('same_srs', lambda: e2e_same_srs(ctx, T, grid_defs)), ('featureinfo', lambda: e2e_featureinfo(ctx)),
+    for name, f in [('same_srs', lambda: e2e_same_srs(ctx, T, grid_defs)), ('featureinfo', lambda: e2e_featureinfo(ctx, T, grid_defs)),
                     ('reprojected', lambda: e2e_reprojected(ctx))]:
         try:
             f()
